@@ -305,7 +305,11 @@ func (e *Exec) recordViolation(kind, label, detail string, extra *Term) {
 	if extra != nil {
 		lits = append(lits, extra)
 	}
-	if kind == "steps" || kind == "alloc" {
+	// An assertion that is constant false on this path (e.g. a Sprintf whose format string
+	// differs from the specified one) is violated by every input of the path; natively the
+	// difference may only show for some of them (%x and %d agree below 10). As for budget
+	// violations, take the witness with the free input words maximised.
+	if kind == "steps" || kind == "alloc" || (kind == "assert" && extra == nil && e.Cfg.Float == FloatFP) {
 		// a resource-budget violation: the solver's model tends to be the smallest input
 		// that crosses the symbolic accounting threshold, which the native accounting
 		// (allocator size classes, wall clock) may not cross. Push the witness away from
@@ -313,11 +317,19 @@ func (e *Exec) recordViolation(kind, label, detail string, extra *Term) {
 		// (hostile length/count fields), most significant input first.
 		tried := 0
 		for _, in := range e.inputs {
-			if in.Sort.K != SBV || tried >= 48 || !e.relSeen[in.ID] {
+			if in.Sort.K != SBV {
+				continue
+			}
+			mx := e.B.Eq(in, e.B.BVConst(^uint64(0)>>(64-uint(in.Sort.W)), in.Sort.W))
+			if !e.relSeen[in.ID] {
+				// not mentioned by the path condition at all: free, no query needed
+				lits = append(lits, mx)
+				continue
+			}
+			if tried >= 48 {
 				continue
 			}
 			tried++
-			mx := e.B.Eq(in, e.B.BVConst(^uint64(0)>>(64-uint(in.Sort.W)), in.Sort.W))
 			if e.check(append(append([]*Term(nil), lits...), mx)...) == Sat {
 				lits = append(lits, mx)
 			}
